@@ -22,6 +22,6 @@ PY
   (cd $dd && go test $race -count=1 ${run:+-run "$run"} $sub > $S/mut.log 2>&1); m=$?
   nt=$(grep -c "no tests to run" $S/mut.log)
   echo "$id demo_head=$h demo_mut=$m notests=$nt run='$run'"
-  [ $h = 0 ] && [ $m != 0 ] && [ $nt = 0 ] || { tail -5 $S/head.log $S/mut.log | cut -c1-300; }
+  [ $h = 0 ] && [ $m != 0 ] && [ $nt = 0 ] || { tail -n 5 $S/head.log $S/mut.log | cut -c1-300; }
   rm -rf $S
 done
